@@ -205,10 +205,13 @@ def sym_f64(name, finite=True):
 def sym_i64(name, lo=None, hi=None):
     t = z3.BitVec(name, 64)
     core.ctx().inputs[name] = t
+    bs = []
     if lo is not None:
-        core.ctx().solver.add(t >= lo)
+        bs.append(t >= lo)
     if hi is not None:
-        core.ctx().solver.add(t <= hi)
+        bs.append(t <= hi)
+    core.ctx().solver.add(*bs)
+    core.ctx().bounds[name] = bs
     return SBV64(t)
 
 
